@@ -21,6 +21,14 @@ class OperatorBase:
             
     def __repr__(self):
         return f"Oper({self.symbol})"
+
+    def get_operands(self, tokens):
+        # Both operands of a binary operator; nothing or another operator in their place is an error
+        left, right = tokens.get_left(), tokens.get_right()
+        for operand in (left, right):
+            if operand is None or isinstance(operand, OperatorBase):
+                raise Exception("Missing operand of operator", self.symbol)
+        return left, right
     
 class OperatorAdd(OperatorBase):
     
@@ -226,7 +234,7 @@ class OperatorEq(OperatorBase):
     symbol: str = '=='
 
     def operate_binary(self, tokens):
-        left, right = tokens.get_left(), tokens.get_right()
+        left, right = self.get_operands(tokens)  # == and != never raise on their own
         tokens.put_left(left == right)
 
 class OperatorNe(OperatorBase):
@@ -234,7 +242,7 @@ class OperatorNe(OperatorBase):
     symbol: str = '!='
 
     def operate_binary(self, tokens):
-        left, right = tokens.get_left(), tokens.get_right()
+        left, right = self.get_operands(tokens)  # == and != never raise on their own
         tokens.put_left(left != right)
 
 class OperatorLe(OperatorBase):
